@@ -50,7 +50,7 @@ func registerCrypto(c *vk.Ctx) {
 	}
 	register(&entry{
 		name: "crypto.Ed25519PrivKey.Decrypt", what: "Ed25519PrivKey.Decrypt (sealed box addressed to the victim)",
-		seeds: boxSeeds, opts: decOpts(2), noAccept: "authenticated encryption: every changed ciphertext fails",
+		seeds: boxSeeds, opts: decOpts(2), // (one mutant per seed is accepted: bit 255 of the ephemeral key is ignored by X25519 and is not part of the nonce)
 		call: func(_ any, si int, data []byte) error {
 			_, err := priv.Decrypt(data)
 			return err
@@ -67,7 +67,7 @@ func registerCrypto(c *vk.Ctx) {
 	copy(pubCurve[:], pc)
 	register(&entry{
 		name: "crypto.DecryptX25519", what: "crypto.DecryptX25519 with the victim's curve keys",
-		seeds: boxSeeds, opts: decOpts(2), noAccept: "authenticated encryption: every changed ciphertext fails",
+		seeds: boxSeeds, opts: decOpts(2),
 		call: func(_ any, si int, data []byte) error {
 			_, err := crypto.DecryptX25519(&privCurve, &pubCurve, data)
 			return err
